@@ -1,6 +1,7 @@
 package main
 
 import (
+	"bytes"
 	"context"
 	"errors"
 	"fmt"
@@ -241,7 +242,8 @@ func (pe *peer) interrogate(p *syncer.Proof, ri reqInfo, kind string, ent *sched
 	}
 	var pv syncer.ProofVerifier
 	var err error
-	if msg, st := guard(func() { _, err = pv.VerifyProof(c.ctx, trusted, copyProof(p)) }); msg != "" {
+	var subtree *node.Pointer
+	if msg, st := guard(func() { subtree, err = pv.VerifyProof(c.ctx, trusted, copyProof(p)) }); msg != "" {
 		pe.onViolation("panic/verify-proof/"+kind, "VerifyProof panics on a corrupted proof: "+msg, *ent, p, st)
 		return false
 	}
@@ -260,6 +262,45 @@ func (pe *peer) interrogate(p *syncer.Proof, ri reqInfo, kind string, ent *sched
 		return true
 	}
 	c.count("soundness/accepted_writelog_pairs_checked", int64(len(wl)))
+
+	// What does the accepted subtree tell a caller of the verifier API that
+	// holds only the trusted hash? Interpret it with the monitor's own
+	// partial-tree lookup: whatever it DETERMINES (value or absence) about a
+	// probe key must be true; "undetermined" is always fine.
+	depth := 0
+	if ni := c.full[trusted]; ni != nil {
+		depth = ni.depth
+	}
+	atRoot := trusted.Equal(&c.root.Hash)
+	for _, pr := range c.probes {
+		if !atRoot {
+			// A sub-tree proof speaks only about keys whose lookup path passes through it.
+			var path []hash.Hash
+			c.pathOf(pr.Key, &path)
+			on := false
+			for _, h := range path {
+				on = on || h.Equal(&trusted)
+			}
+			if !on {
+				continue
+			}
+		}
+		exp, present := c.M.m[string(pr.Key)]
+		res, val := ptGet(subtree, depth, pr.Key, nil)
+		switch {
+		case res == getUndetermined:
+			continue
+		case res == getAbsent && present:
+			pe.onViolation("c04/soundness/accepted-false-absence/"+kind,
+				fmt.Sprintf("corrupted proof (%s) is accepted by VerifyProof against the trusted hash and its subtree proves key %x absent; the tree has value %x", kind, pr.Key, trunc(exp)), *ent, p, "")
+			return true
+		case res == getPresent && (!present || !bytes.Equal(val, exp)):
+			pe.onViolation("c04/soundness/accepted-false-value/"+kind,
+				fmt.Sprintf("corrupted proof (%s) is accepted by VerifyProof against the trusted hash and its subtree proves key %x = %x; the tree has present=%v value %x", kind, pr.Key, trunc(val), present, trunc(exp)), *ent, p, "")
+			return true
+		}
+		c.count("soundness/accepted_subtree_determinations_checked", 1)
+	}
 
 	if trusted.Equal(&c.root.Hash) && pe.reinterrogated < 6 {
 		pe.reinterrogated++
